@@ -168,14 +168,28 @@ def judge(module, records, cfg=None, workers=None, chunk=None, timeout=3600,
     if len(set(ids)) != len(ids):
         raise MachineryError("duplicate record ids handed to %s" % module)
     chunk = chunk or 20000
+    max_bytes = 16 * 1024 * 1024
     rejects = []
     tot = {"generated": 0, "distinct": 0, "wall": 0.0, "records": len(records), "cmd": ""}
-    for start in range(0, len(records), chunk):
-        part = records[start:start + chunk]
+    # chunks of at most `chunk` records and about 16 MB of JSON: TLC holds the whole decoded
+    # file in memory, and beyond that the JVM spends its time collecting garbage
+    parts = []
+    cur, size = [], 0
+    for rec in records:
+        line = json.dumps(rec, ensure_ascii=True, separators=(",", ":"))
+        if cur and (len(cur) >= chunk or size + len(line) > max_bytes):
+            parts.append(cur)
+            cur, size = [], 0
+        cur.append((rec, line))
+        size += len(line) + 1
+    if cur:
+        parts.append(cur)
+    for part_lines in parts:
+        part = [r for r, _ in part_lines]
         fd, path = tempfile.mkstemp(prefix=label + "-", suffix=".ndjson", dir=BUILD)
         with os.fdopen(fd, "w") as f:
-            for rec in part:
-                f.write(json.dumps(rec, ensure_ascii=True, separators=(",", ":")))
+            for _, line in part_lines:
+                f.write(line)
                 f.write("\n")
         e = {"TRACE_FILE": path}
         if env:
